@@ -225,3 +225,31 @@ def yt_contains_22(p):
 
 def yt_contains_32(p):
     return lis_len(p) >= 3 and second_row_at_least_2(p)
+
+
+def bkv_sortable(p, patterns=()):
+    """Two stacks in series, greedy (arXiv 1907.08142 / 2004.01812): the next input element enters the RIGHT stack if that
+    stack, read from the top down, still avoids every pattern; otherwise the top of the right stack moves to the LEFT stack
+    if the left stack stays increasing from the top down; otherwise the top of the left stack is output.  Sortable iff the
+    output is 0, 1, ..., n-1.  (Second implementation with plain lists; containment by the definitional census.)"""
+    inp = list(p)
+    right, left, out = [], [], []  # tops at the END of the lists
+    pos = 0
+    n = len(inp)
+    while len(out) < n:
+        if pos < n:
+            cand = right + [inp[pos]]
+            top_down = tuple(reversed(cand))
+            if not any(C.contains(C.std(top_down), tuple(q)) for q in patterns):
+                right.append(inp[pos])
+                pos += 1
+                continue
+        if right and (not left or right[-1] < left[-1]):
+            left.append(right.pop())
+            continue
+        if not left:
+            return False  # nothing can move: the machine is stuck
+        out.append(left.pop())
+        if out[-1] != len(out) - 1:
+            return False
+    return True
